@@ -6,7 +6,7 @@
    MODELLING DECISIONS
    * Tokens are [N]; a token is identified with the terminal it matches: [PTok t] matches token [x] iff
      [x = t].  (NAME / soft-keyword distinctions are the business of the encoder.)
-   * [pegc fuel G e s : option (bool * option (list N))]
+   * [pegc fuel G LR M e s : option (bool * option (list N))]   ([LR], [M]: see left recursion below)
         None                 no result with this fuel (out of fuel, or the run diverges, see below)
         Some (c, None)       failure
         Some (c, Some s')    success, [s'] is the unconsumed rest of the input
@@ -25,10 +25,17 @@
    * [POpt], [&e] ([PPos]), [!e] ([PNeg]) as usual, lookaheads consume nothing.
    * [PForced e] ([&&e]) behaves as [e]; its failure (a SyntaxError raised by pegen) is modelled as failure.
    * A reference to an undefined rule fails.
-   * Memoisation is semantically transparent and not modelled; pegen's memoised LEFT RECURSION
-     (seed growing) is NOT modelled: rules are plain calls, a left-recursive rule yields [None] for every fuel.
-   * Fuel decreases by one at every constructor, so the fuel needed is bounded by
-     (nesting depth of the run) + (number of loop iterations). *)
+   * LEFT RECURSION is modelled as pegen implements it (memoize_left_rec, "seed growing").  [LR] is the list of
+     left-recursive LEADER rules (pegen: rule.left_recursive and rule.leader; the other rules of a left-recursive
+     cycle are plain calls).  A call of a leader r at input s that is not already in progress starts with the
+     seed "failure", runs the body with the memo entry (r, s) := seed, and as long as the body succeeds with a
+     strictly shorter remainder than the seed's (initially: than s itself) takes the new result as seed and
+     runs the body again; the last seed is the result.  While this loop runs, a call of r at the same s returns
+     the current seed ([M], the memo of seeds in progress; entries are keyed by the rule and the remaining input).
+     pegen's ordinary memoisation (a global cache of finished results) is semantically transparent and is not
+     modelled: finished calls are recomputed.  With [LR = []] every rule is a plain call.
+   * Fuel decreases by one at every constructor / loop iteration / seed-growing round, so the fuel needed is
+     bounded by (nesting depth of the run) + (number of iterations). *)
 From Coq Require Import NArith List Bool Arith.
 From Scenic Require Import C10.PEG.
 Import ListNotations.
@@ -36,7 +43,29 @@ Open Scope N_scope.
 
 Definition res := (bool * option (list N))%type.
 
-Fixpoint pegc (fuel : nat) (G : grammar) (e : pexp) (s : list N) {struct fuel} : option res :=
+(* seeds in progress: (leader rule, remaining input at the call, current seed) *)
+Definition memo := list (N * list N * option (list N)).
+
+Fixpoint leqb (a b : list N) : bool :=
+  match a, b with
+  | [], [] => true
+  | x :: a', y :: b' => (x =? y) && leqb a' b'
+  | _, _ => false
+  end.
+
+Fixpoint mlookup (M : memo) (r : N) (s : list N) : option (option (list N)) :=
+  match M with
+  | [] => None
+  | (r', s', o) :: M' => if (r =? r') && leqb s s' then Some o else mlookup M' r s
+  end.
+
+(* pegen: [if endmark <= lastmark: break], lastmark initially the start position *)
+Definition better (s1 : list N) (seed : option (list N)) (s : list N) : bool :=
+  Nat.ltb (length s1) (length (match seed with Some s0 => s0 | None => s end)).
+Arguments better : simpl never.
+
+Fixpoint pegc (fuel : nat) (G : grammar) (LR : list N) (M : memo) (e : pexp) (s : list N) {struct fuel}
+  : option res :=
   match fuel with
   | O => None
   | S n =>
@@ -49,79 +78,106 @@ Fixpoint pegc (fuel : nat) (G : grammar) (e : pexp) (s : list N) {struct fuel} :
     | PRule r =>
         match lookup G r with
         | None => Some (false, None)
-        | Some b => match pegc n G b s with
-                    | None => None
-                    | Some (_, o) => Some (false, o)
-                    end
+        | Some b =>
+            if memN r LR then
+              match mlookup M r s with
+              | Some o => Some (false, o)                      (* in progress: the current seed *)
+              | None => match grow n G LR M r b s None with
+                        | None => None
+                        | Some (_, o) => Some (false, o)
+                        end
+              end
+            else match pegc n G LR M b s with
+                 | None => None
+                 | Some (_, o) => Some (false, o)
+                 end
         end
     | PEps => Some (false, Some s)
     | PCut => Some (true, Some s)
     | PSeq a b =>
-        match pegc n G a s with
+        match pegc n G LR M a s with
         | None => None
         | Some (c1, None) => Some (c1, None)
         | Some (c1, Some s1) =>
-            match pegc n G b s1 with
+            match pegc n G LR M b s1 with
             | None => None
             | Some (c2, o) => Some (c1 || c2, o)
             end
         end
     | PAlt a b =>
-        match pegc n G a s with
+        match pegc n G LR M a s with
         | None => None
         | Some (_, Some s1) => Some (false, Some s1)
         | Some (c1, None) =>
             if c1 then Some (false, None)      (* cut: the later alternatives are pruned *)
-            else match pegc n G b s with
+            else match pegc n G LR M b s with
                  | None => None
                  | Some (_, o) => Some (false, o)
                  end
         end
     | POpt a =>
-        match pegc n G a s with
+        match pegc n G LR M a s with
         | None => None
         | Some (_, Some s1) => Some (false, Some s1)
         | Some (_, None) => Some (false, Some s)
         end
     | PStar a =>
-        match pegc n G a s with
+        match pegc n G LR M a s with
         | None => None
         | Some (_, None) => Some (false, Some s)
         | Some (_, Some s1) =>
-            if Nat.eqb (length s1) (length s) then None else pegc n G (PStar a) s1
+            if Nat.eqb (length s1) (length s) then None else pegc n G LR M (PStar a) s1
         end
     | PPlus a =>
-        match pegc n G a s with
+        match pegc n G LR M a s with
         | None => None
         | Some (_, None) => Some (false, None)
         | Some (_, Some s1) =>
-            if Nat.eqb (length s1) (length s) then None else pegc n G (PStar a) s1
+            if Nat.eqb (length s1) (length s) then None else pegc n G LR M (PStar a) s1
         end
     | PGather sep a =>
-        match pegc n G a s with
+        match pegc n G LR M a s with
         | None => None
         | Some (_, None) => Some (false, None)
-        | Some (_, Some s1) => pegc n G (PStar (PSeq sep a)) s1
+        | Some (_, Some s1) => pegc n G LR M (PStar (PSeq sep a)) s1
         end
     | PPos a =>
-        match pegc n G a s with
+        match pegc n G LR M a s with
         | None => None
         | Some (_, Some _) => Some (false, Some s)
         | Some (_, None) => Some (false, None)
         end
     | PNeg a =>
-        match pegc n G a s with
+        match pegc n G LR M a s with
         | None => None
         | Some (_, Some _) => Some (false, None)
         | Some (_, None) => Some (false, Some s)
         end
-    | PForced a => pegc n G a s
+    | PForced a => pegc n G LR M a s
+    end
+  end
+
+(* seed growing for the leader r with body b called at s *)
+with grow (fuel : nat) (G : grammar) (LR : list N) (M : memo) (r : N) (b : pexp) (s : list N)
+          (seed : option (list N)) {struct fuel} : option res :=
+  match fuel with
+  | O => None
+  | S n =>
+    match pegc n G LR ((r, s, seed) :: M) b s with
+    | None => None
+    | Some (_, None) => Some (false, seed)
+    | Some (_, Some s1) =>
+        if better s1 seed s then grow n G LR M r b s (Some s1) else Some (false, seed)
     end
   end.
 
-(* the interpreter the property speaks about: the cut flag is internal *)
+(* the interpreters the property speaks about: the cut flag and the memo are internal *)
+Definition peglr (fuel : nat) (G : grammar) (LR : list N) (e : pexp) (s : list N) : option (option (list N)) :=
+  option_map snd (pegc fuel G LR [] e s).
+
+(* every rule a plain call (no left recursion support) *)
 Definition peg (fuel : nat) (G : grammar) (e : pexp) (s : list N) : option (option (list N)) :=
-  option_map snd (pegc fuel G e s).
+  peglr fuel G [] e s.
 
 (* ---- keyword analysis ------------------------------------------------------------------------------------ *)
 
